@@ -44,11 +44,21 @@ def setup():
     attach.wrap_method(NonBondEngine, "add_positions", make)
 
 
-def top_for(itp_name, molname, count=1):
+def top_for(itp_name, molname, count=1, others=None):
+    """others: None | 'before' | 'after' | 'both' - small connected molecules around the tested one"""
     lines = ["[ defaults ]", "1 2 no 1.0 1.0", "[ atomtypes ]"]
     for t in FF.ATYPES + ["Qd", "Qa", "P9"]:
         lines.append("%s 36.0 0.0 A 0.47 2.0" % t)
-    lines += ['#include "%s"' % itp_name, "[ system ]", "x", "[ molecules ]", "%s %d" % (molname, count)]
+    lines += ['#include "%s"' % itp_name]
+    if others:
+        lines += ["[ moleculetype ]", "SOL 1", "[ atoms ]", "1 P1 1 SOL W 1 0.0", "2 P1 1 SOL X 2 0.0",
+                  "[ bonds ]", "1 2 1 0.3 1000"]
+    mols = ["%s %d" % (molname, count)]
+    if others in ("before", "both"):
+        mols.insert(0, "SOL 2")
+    if others in ("after", "both"):
+        mols.append("SOL 1")
+    lines += ["[ system ]", "x", "[ molecules ]"] + mols
     return "\n".join(lines) + "\n"
 
 
@@ -145,7 +155,7 @@ def run_case(cid, rng, workdir):
     cond_bonds = any(c for sec in ("bonds", "constraints") for (_a, _p, c) in obs["inter"].get(sec, {}))
     if (not connected and not cond_bonds) or (connected and not cond_bonds and rng.random() < 0.05):
         with open(os.path.join(workdir, "sys.top"), "w") as fh:
-            fh.write(top_for("out.itp", "POLY"))
+            fh.write(top_for("out.itp", "POLY", others=rng.choice([None, "before", "after", "both"])))
         from polyply import gen_coords
         from vermouth.file_writer import DeferredFileWriter
         import numpy as np
